@@ -486,6 +486,62 @@ func (r *c13Req) toIR() *ir.File {
 	return f
 }
 
+// leftOver points one plain rule of the request at a Do/Filter function that another file — of an earlier call of the
+// history or of a bundle this call imports — declares and the request's own file does not.
+func (g *c13Gen) leftOver(r *c13Req, prev []*c13Req) bool {
+	own := map[int]bool{}
+	for _, f := range r.Unit.Funcs {
+		own[f.Name] = true
+	}
+	var dos, fls []int
+	seen := map[int]bool{}
+	collect := func(u *c13Unit) {
+		for _, f := range u.Funcs {
+			if own[f.Name] || seen[f.Name] {
+				continue
+			}
+			seen[f.Name] = true
+			switch f.kind() {
+			case 2:
+				dos = append(dos, f.Name)
+			case 3:
+				fls = append(fls, f.Name)
+			}
+		}
+	}
+	for _, b := range r.Bundles {
+		for _, u := range b.Files {
+			collect(u)
+		}
+	}
+	for _, p := range prev {
+		collect(p.Unit)
+		for _, b := range p.Bundles {
+			for _, u := range b.Files {
+				collect(u)
+			}
+		}
+	}
+	for gi := range r.Unit.Groups {
+		for ri := range r.Unit.Groups[gi].Rules {
+			rl := &r.Unit.Groups[gi].Rules[ri]
+			if rl.Bucket == 2 || rl.Do >= 0 || rl.Filt >= 0 {
+				continue
+			}
+			switch {
+			case len(dos) > 0 && (len(fls) == 0 || g.chance(0.5)):
+				rl.Do = dos[g.rng.Intn(len(dos))]
+			case len(fls) > 0:
+				rl.Filt = fls[g.rng.Intn(len(fls))]
+			default:
+				return false
+			}
+			return true
+		}
+	}
+	return false
+}
+
 // dangle points one plain rule of the request at a function nobody declares.
 func (g *c13Gen) dangle(r *c13Req) bool {
 	for gi := range r.Unit.Groups {
@@ -666,8 +722,13 @@ func (g *c13Gen) request(prev []*c13Req, bundlesOK bool) *c13Req {
 		r.IsIR = true
 		r.note = append(r.note, "ir")
 		if g.chance(0.4) {
-			switch rng.Intn(6) {
-			case 0: // functions are registered under "gorules" but looked up under the file's PkgPath
+			switch rng.Intn(7) {
+			case 6: // one Do/Filter name that this file does not declare but an earlier call (accepted or not) or a
+				// bundle file of this call does: only the engine-wide name table knows it
+				if g.leftOver(r, prev) {
+					r.note = append(r.note, "ir:name-of-another-file")
+				}
+			case 0: // the file's PkgPath is not "gorules" (the package its declarations are compiled under)
 				r.PkgPath = 1
 				r.note = append(r.note, "ir:pkgpath")
 			case 1: // rules refer to functions the file does not declare
@@ -1352,9 +1413,6 @@ func c13Spec(c *Ctx, hs []*c13History, specOps, impl []string, inputs []interfac
 				}
 			default:
 				sig = "Load:" + aspect
-				if aspect == "unresolved-accepted" && hs != nil && hs[i].leftOverName(step) {
-					sig += ":name-left-over-from-another-file"
-				}
 			}
 			sig = sigPrefix + sig
 			in := inputs[i].(map[string]interface{})
@@ -1365,48 +1423,6 @@ func c13Spec(c *Ctx, hs []*c13History, specOps, impl []string, inputs []interfac
 		}
 	}
 	return nil
-}
-
-// leftOverName: some rule of the call at `step` names a custom function its own file does not declare, but a file of an
-// earlier call (accepted or rejected) or a bundle file of the same call does: the engine-wide name table still binds it.
-func (h *c13History) leftOverName(step int) bool {
-	if step >= len(h.Reqs) {
-		return false
-	}
-	other := map[int]bool{}
-	collect := func(r *c13Req, own bool) {
-		if !own {
-			for _, f := range r.Unit.Funcs {
-				other[f.Name] = true
-			}
-		}
-		for _, b := range r.Bundles {
-			for _, u := range b.Files {
-				for _, f := range u.Funcs {
-					other[f.Name] = true
-				}
-			}
-		}
-	}
-	for i := 0; i < step; i++ {
-		collect(h.Reqs[i], false)
-	}
-	r := h.Reqs[step]
-	collect(r, true)
-	own := map[int]bool{}
-	for _, f := range r.Unit.Funcs {
-		own[f.Name] = true
-	}
-	for _, g := range r.Unit.Groups {
-		for _, rl := range g.Rules {
-			for _, n := range []int{rl.Do, rl.Filt} {
-				if n >= 0 && !own[n] && other[n] {
-					return true
-				}
-			}
-		}
-	}
-	return false
 }
 
 // reportsCause names the feature of the successfully loaded files (steps 0..step) that explains a
@@ -1491,7 +1507,52 @@ func c13Corpus(g *c13Gen) []*c13History {
 		Rules: []c13Rule{typedRule(2, 9008), {Bucket: 0, Key: 4, Msg: 9009, Do: -1, Filt: -1, Bad: true, badKind: 1}}})
 	dflt := file(908, nil, c13Group{Name: 2, Rules: []c13Rule{typedRule(1, 9010), typedRule(3, 9011)}},
 		c13Group{Name: 3, Imports: []string{"html/template"}, Rules: []c13Rule{typedRule(4, 9012), typedRule(1, 9013)}})
-	return []*c13History{
+	// a Do / Filter name that only another file declares: precompiled IR naming do_6 / fl_7 without declaring them, after
+	// a file that declares them was accepted (a, fl), after one that registered do_6 and was then rejected (half: its second
+	// declaration does not compile), alone, and next to a bundle file of the same call that declares the name (leftB)
+	left := file(909, nil, c13Group{Name: 7, Rules: []c13Rule{rule(0, 2, 9014, 6, -1)}})
+	left.IsIR = true
+	fl := file(910, []c13Func{{Name: 7, Tag: 9015, Lit: true, Callee: -1}}, c13Group{Name: 5, Rules: []c13Rule{rule(0, 3, 9016, -1, 7)}})
+	leftF := file(911, nil, c13Group{Name: 6, Rules: []c13Rule{rule(0, 3, 9017, -1, 7), rule(0, 1, 9018, -1, -1)}})
+	leftF.IsIR = true
+	half := file(912, []c13Func{{Name: 6, Tag: 9019, Callee: -1}, {Name: 8, Tag: 9020, Callee: -1, Bad: true}},
+		c13Group{Name: 4, Rules: []c13Rule{rule(0, 1, 9021, 6, -1)}})
+	// the same file as `a` under other names, as precompiled IR with a PkgPath that is not "gorules": it declares what it uses
+	pk := file(913, []c13Func{{Name: 4, Tag: 9022, Callee: -1}, {Name: 6, Tag: 9023, Callee: 4}},
+		c13Group{Name: 2, Rules: []c13Rule{rule(0, 2, 9024, 6, -1)}})
+	pk.IsIR, pk.PkgPath = true, 1
+	var own []*c13History
+	own = append(own, mk(-1, cp(a), cp(left)), mk(-1, cp(half), cp(left)), mk(-1, cp(fl), cp(leftF)), mk(-1, cp(left)),
+		mk(-1, cp(a), cp(pk), cp(left)), mk(-1, cp(pk)))
+	for _, b := range g.pool {
+		for _, u := range b.Files {
+			for _, f := range u.Funcs {
+				if f.kind() != 2 && f.kind() != 3 {
+					continue
+				}
+				rl := rule(0, 2, 9025, -1, -1)
+				if f.kind() == 2 {
+					rl.Do = f.Name
+				} else {
+					rl.Filt = f.Name
+				}
+				leftB := file(914, nil, c13Group{Name: 7, Rules: []c13Rule{rl}})
+				leftB.IsIR = true
+				bb := b
+				bb.Pfx = 1
+				leftB.Bundles = []c13Bundle{bb}
+				own = append(own, mk(-1, leftB))
+				break
+			}
+			if len(own) > 6 {
+				break
+			}
+		}
+		if len(own) > 6 {
+			break
+		}
+	}
+	return append(own, []*c13History{
 		mk(-1, cp(dflt)),
 		mk(-1, cp(rej), cp(dflt)),
 		mk(-1, cp(dflt), cp(rej), cp(plain)),
@@ -1504,7 +1565,7 @@ func c13Corpus(g *c13Gen) []*c13History {
 		mk(-1, cp(a), cp(dang)),
 		mk(1, cp(plain), cp(d)),
 		mk(0, cp(a)),
-	}
+	}...)
 }
 
 var _ = sort.Strings
